@@ -240,3 +240,134 @@ Proof. intros a oq Hc Ha. unfold arrives, seq_input. destruct a; try discriminat
 
 Lemma alive_sees_result : forall a oq, is_call a = false \/ alive (exec_of a oq) = true -> arrives a oq = o_res oq.
 Proof. intros a oq [H|H]; unfold arrives, seq_input; destruct a; try discriminate H; try rewrite H; reflexivity. Qed.
+
+(* ---------------------------------------------------------------- typing: well-typed programs run, and keep their types *)
+
+Lemma step_types_par_ok : forall p t rt, step_types p t rt = true -> par_ok p t = true.
+Proof. destruct p, t, rt; cbn; intro H; try reflexivity; discriminate H. Qed.
+
+Lemma step_types_recovery : forall p t rt, step_types p t rt = true -> p = PError \/ p = PExc -> t = rt.
+Proof. intros p t rt H [Hp|Hp]; subst p; destruct t, rt; cbn in H; try reflexivity; discriminate H. Qed.
+
+Lemma ty_eqb_eq : forall a b, ty_eqb a b = true -> a = b.
+Proof. destruct a, b; cbn; intro H; try reflexivity; discriminate H. Qed.
+
+Lemma res_has_ty_fail : forall t r, (forall v, r <> Val v) -> res_has_ty t r = true.
+Proof. intros t [v|e|x] H; try reflexivity. exfalso. exact (H v eq_refl). Qed.
+
+Definition TyQ (p : prog) : Prop :=
+  wt p -> exists o, run p = Some o /\ (exists w, prog_ty p = Some (w, o_ty o)) /\ res_has_ty (o_ty o) (o_res o) = true.
+Definition TyQo (o : outcome) : Prop := match o with RetAsync _ p' => TyQ p' | _ => True end.
+
+(* the typing of a Result that is passed through or produced by a callback *)
+Lemma outcome_typed : forall rt o, wt_o rt o -> match o with RetAsync _ _ => True | _ => res_has_ty rt (done_result o) = true end.
+Proof.
+  intros rt [x|[z|]| |r|k p'] H; cbn in *; try exact I; try reflexivity; subst; try reflexivity; try assumption.
+  contradiction.
+Qed.
+
+Lemma pass_typed : forall par t rt r,
+  step_types par t rt = true -> res_has_ty t r = true -> invoked par r = None -> res_has_ty rt r = true.
+Proof.
+  intros par t rt r Hs Hr Hi.
+  destruct r as [v|e|x]; try reflexivity.
+  destruct par; cbn in Hi; try discriminate Hi;
+    (rewrite <- (step_types_recovery _ _ _ Hs); [exact Hr|tauto]).
+Qed.
+
+Lemma typed_all : forall p, TyQ p.
+Proof.
+  apply (prog_mind TyQo TyQ); unfold TyQ, TyQo; intros; try exact I; auto.
+  - (* PReady *) cbn [wt prog_ty run] in *.
+    destruct (w_in w [WF; WT] && res_has_ty t r) eqn:E; [|contradiction H; reflexivity].
+    apply andb_prop in E. destruct E as [_ E].
+    eexists. split; [reflexivity|]. cbn [o_ty o_res]. split; [eexists; reflexivity|assumption].
+  - (* PContract *) cbn [wt prog_ty run] in *.
+    destruct (w_in w [WF; WO; WS] && res_has_ty t r && exec_fits w e) eqn:E; [|contradiction H; reflexivity].
+    apply andb_prop in E. destruct E as [E _]. apply andb_prop in E. destruct E as [_ E].
+    eexists. split; [reflexivity|]. cbn [o_ty o_res]. split; [eexists; reflexivity|assumption].
+  - (* PRun *)
+    cbn [wt] in H0. destruct H0 as [Hty Hb]. cbn [prog_ty] in Hty.
+    destruct (step_types par TVoid rt && exec_fits w e) eqn:E; [|contradiction Hty; reflexivity].
+    apply andb_prop in E. destruct E as [Hs He].
+    cbn [run prog_ty]. rewrite run_call_class, (step_types_par_ok _ _ _ Hs).
+    rewrite Hs, He. cbn [andb].
+    unfold by_class.
+    destruct (invoked par _) as [i|] eqn:Hi.
+    + specialize (H i). specialize (Hb i). pose proof (outcome_typed rt (body i) Hb) as Ht.
+      destruct (body i) as [x|v| |r|k p'] eqn:Hbi;
+        try (eexists; split; [reflexivity|]; cbn; split; [eexists; reflexivity|exact Ht]).
+      cbn [wt_o] in Hb. destruct Hb as [Hw [w' [Hp' _]]].
+      destruct (H Hw) as [oi [Hr [[w'' Hty'] Hres]]]. rewrite Hr.
+      eexists. split; [reflexivity|]. cbn. split; [eexists; reflexivity|].
+      rewrite Hp' in Hty'. inversion Hty'. subst. exact Hres.
+    + eexists. split; [reflexivity|]. cbn. split; [eexists; reflexivity|].
+      apply (pass_typed par TVoid rt _ Hs); [|exact Hi]. destruct (negb (alive e)); reflexivity.
+  - (* PProm *)
+    cbn [wt prog_ty run] in *. unfold prom_result.
+    destruct (exec_fits w e && match b with PBSet _ r => res_has_ty t r | PBThrow _ => true end) eqn:E;
+      [|contradiction H; reflexivity].
+    apply andb_prop in E. destruct E as [_ E].
+    destruct (negb (alive e)); [|destruct b]; eexists; (split; [reflexivity|]); cbn [o_ty o_res];
+      (split; [eexists; reflexivity|]); try reflexivity; try assumption; destruct t; reflexivity.
+  - (* PCoro *) cbn [wt prog_ty run] in *.
+    destruct (w_in w [WF; WT] && res_has_ty t r) eqn:E; [|contradiction H; reflexivity].
+    apply andb_prop in E. destruct E as [_ E].
+    eexists. split; [reflexivity|]. cbn [o_ty o_res]. split; [eexists; reflexivity|assumption].
+  - (* PThen *)
+    cbn [wt] in H1. destruct H1 as [Hty [Hwq Hb]]. cbn [prog_ty] in Hty.
+    destruct (H Hwq) as [oq [Hq [[w Htq] Hrq]]].
+    rewrite Htq in Hty.
+    destruct (step_types par (o_ty oq) rt) eqn:Hs; [|contradiction Hty; reflexivity].
+    destruct (then_world w a) as [w'|] eqn:Hw; [|contradiction Hty; reflexivity].
+    rewrite (then_unfold _ _ _ _ _ _ _ Hq). unfold step_result.
+    rewrite (step_types_par_ok _ _ _ Hs).
+    assert (Hpt : prog_ty (PThen q id par a rt body) = Some (w', rt)).
+    { cbn [prog_ty]. rewrite Htq, Hs, Hw. reflexivity. }
+    assert (Harr : res_has_ty (o_ty oq) (arrives a oq) = true).
+    { unfold arrives, seq_input. destruct a; try exact Hrq; destruct (alive _); try exact Hrq;
+        destruct (o_ty oq); reflexivity. }
+    destruct (invoked par (arrives a oq)) as [i|] eqn:Hi.
+    + specialize (H0 i). specialize (Hb i). pose proof (outcome_typed rt (body i) Hb) as Ht.
+      destruct (body i) as [x|v| |r|k p'] eqn:Hbi;
+        try (eexists; split; [reflexivity|]; split; [eexists; exact Hpt|exact Ht]).
+      cbn [wt_o] in Hb. destruct Hb as [Hw' [w'' [Hp' _]]].
+      destruct (H0 Hw') as [oi [Hr [[w3 Hty'] Hres]]]. rewrite Hr.
+      eexists. split; [reflexivity|]. split; [eexists; exact Hpt|]. cbn.
+      rewrite Hp' in Hty'. inversion Hty'. subst. exact Hres.
+    + eexists. split; [reflexivity|]. split; [eexists; exact Hpt|]. cbn.
+      exact (pass_typed par (o_ty oq) rt _ Hs Harr Hi).
+  - (* PToFuture *)
+    cbn [wt] in H0. destruct H0 as [Hty Hwq]. destruct (H Hwq) as [oq [Hq [[w Htq] Hrq]]].
+    cbn [run]. exists oq. split; [exact Hq|]. split; [|exact Hrq].
+    cbn [prog_ty] in *. rewrite Htq in *. destruct w; try (contradiction Hty; reflexivity). eexists; reflexivity.
+  - (* POnNull *)
+    cbn [wt] in H0. destruct H0 as [Hty Hwq]. destruct (H Hwq) as [oq [Hq [[w Htq] Hrq]]].
+    cbn [run]. exists oq. split; [exact Hq|]. split; [|exact Hrq].
+    cbn [prog_ty] in *. rewrite Htq in *. destruct w; try (contradiction Hty; reflexivity); eexists; reflexivity.
+Qed.
+
+(* a program that type-checks runs (the static_assert branch of the model is unreachable) ... *)
+Theorem typed_runs : forall p, wt p -> exists o, core_run p = Some o.
+Proof. intros p H. destruct (typed_all p H) as [o [Hr _]]. exists o. exact Hr. Qed.
+
+(* ... and its final Result has the static value type of the handle *)
+Theorem type_sound : forall p o, wt p -> core_run p = Some o ->
+  (exists w, prog_ty p = Some (w, o_ty o)) /\ res_has_ty (o_ty o) (o_res o) = true.
+Proof.
+  intros p o H Hr. destruct (typed_all p H) as [o' [Hr' [Ht Hv]]].
+  unfold core_run in Hr. rewrite Hr in Hr'. inversion Hr'. subst. split; assumption.
+Qed.
+
+(* the model says "does not compile" only for a step whose parameter class does not exist in its world *)
+Lemma none_only_ill_typed : forall q id par a rt body oq,
+  run q = Some oq -> run (PThen q id par a rt body) = None ->
+  par_ok par (o_ty oq) = false \/
+  exists i k p', invoked par (arrives a oq) = Some i /\ body i = RetAsync k p' /\ run p' = None.
+Proof.
+  intros q id par a rt body oq Hq H. rewrite (then_unfold _ _ _ _ _ _ _ Hq) in H. unfold step_result in H.
+  destruct (par_ok par (o_ty oq)); [|left; reflexivity]. right.
+  destruct (invoked par (arrives a oq)) as [i|]; [|discriminate].
+  destruct (body i) as [x|v| |r|k p'] eqn:Hb; try discriminate.
+  destruct (run p') eqn:Hr; [discriminate|]. exists i, k, p'. repeat split; assumption.
+Qed.
